@@ -6,14 +6,18 @@ PROOF_FILE = "C07"
 LEVEL = "proof"
 RULE = ("generated Maven universes (5-12 artifacts in 3 groups, 1-4 versions each, soft versions, hard ranges, "
         "dependencyManagement, exclusions incl. *:* g:* *:a, scopes, optional, classifiers, types incl. war/ear/rar, "
-        "diamonds, cycles), every version of every artifact as root, single registry; a case is non-trivial when the "
+        "diamonds, cycles, recurring exclusion texts, multi-range unions in any order with overlapping/adjacent/single-version "
+        "sub-ranges), every version of every artifact as root, single registry; a case is non-trivial when the "
         "resolution returns a graph with at least 4 nodes")
 TRUSTED = [
     "Coq 8.16.1 kernel; vm_compute for the refuted witnesses and the satisfiability examples",
     "translator harness/go/cmd/gotables (maxRetries, importsOpt bits, attribute keys regenerated from Go sources each run)",
     "extraction (ExtrOcamlBasic only) + Extract/driver.ml; Go harness cmd/implrun (mavenres.go: recording client, table client); "
     "python generator and direct oracle",
-    "semver.Maven (ParseConstraint/IsSimple/Match) and resolve.SortVersions enter the model as oracle tables computed by the Go code itself",
+    "semver.Maven (ParseConstraint/IsSimple/Match) and resolve.SortVersions enter the MODEL as oracle tables computed by the Go code itself; "
+    "the DIRECT ORACLE does not trust them: range membership and soft/range classification are re-decided by an independent python "
+    "evaluator of Maven range specifications on dotted-numeral versions (integer tuples), and every recorded library answer inside "
+    "that domain is compared with it",
 ]
 ASSUMPTIONS = [
     "model validated against the implementation by execution on generated universes (same client table on both sides), "
@@ -68,8 +72,43 @@ VERSION_POOLS = [
 ]
 
 
-def gen_range(rng, vers):
+def gen_range(rng, vers, p_union=0.25):
     """a hard requirement over the version strings of the target package"""
+    if rng.random() < p_union:
+        return gen_union(rng, vers)
+    return gen_range1(rng, vers)
+
+
+def gen_union(rng, vers):
+    """a multi-range requirement: 2-3 sub-ranges in ANY order (Maven does not require ascending order), possibly
+    overlapping or adjacent, built on the package's own versions so that candidates fall in each sub-range"""
+    r = rng.random()
+    if r < 0.2 and len(vers) >= 2:
+        i = rng.randrange(0, len(vers) - 1)
+        parts = [b"(," + vers[i] + rng.choice([b"]", b")"]), rng.choice([b"[", b"("]) + vers[rng.randrange(i + 1, len(vers))] + b",)"]
+    elif r < 0.45:
+        parts = [b"[" + v + b"]" for v in rng.sample(vers, min(len(vers), rng.randrange(2, 4)))]
+        if len(parts) < 2:
+            parts.append(gen_range1(rng, vers))
+    else:
+        parts = [gen_range1(rng, vers) for _ in range(rng.randrange(2, 4))]
+    q = rng.random()
+    if q < 0.45:
+        rng.shuffle(parts)
+    elif q < 0.75:
+        parts.sort(key=lambda x: range_sort_key(x), reverse=True)
+    else:
+        parts.sort(key=lambda x: range_sort_key(x))
+    return b",".join(parts)
+
+
+def range_sort_key(part):
+    lo = part[1:].split(b",")[0].rstrip(b"])")
+    t = vt(lo) if lo else ()
+    return t if t is not None else ()
+
+
+def gen_range1(rng, vers):
     a, b = sorted(rng.sample(range(len(vers)), 2)) if len(vers) >= 2 else (0, 0)
     lo, hi = vers[a], vers[b]
     r = rng.random()
@@ -273,6 +312,93 @@ def canon_type(t):
     return tuple(sorted(d.items(), key=lambda kv: (kv[0] >= 0, -kv[0] if kv[0] < 0 else kv[0])))
 
 
+# ----------------------------------------------------------------------------- independent Maven ranges
+# Membership of a version in a Maven range specification, decided WITHOUT the library under test: versions and
+# bounds are dotted numerals compared as integer tuples without trailing zeros; a requirement is soft when it has
+# no bracket, otherwise a comma-separated union of [a,b] (a,b) [a,) (,b] [a] in any order.  Everything else
+# (qualifiers, bounds equal to 0, empty or inverted intervals: places where the library is known to deviate or the
+# specification is silent) is outside the domain: the functions answer None and the oracle does not judge.
+import re  # noqa: E402
+
+NUM = re.compile(rb"^[0-9]+(\.[0-9]+)*$")
+def vt(s):
+    """dotted numeric version -> tuple of ints without trailing zeros; None outside the domain"""
+    if not NUM.match(s) or len(s) > 40:
+        return None
+    t = [int(x) for x in s.split(b".")]
+    while t and t[-1] == 0:
+        t.pop()
+    return tuple(t)
+def parse_req(s):
+    """('soft', v) | ('ranges', [(lo, lo_incl, hi, hi_incl)...]) | None (outside the domain)"""
+    if not s:
+        return None
+    if s[:1] not in b"[(":
+        return ("soft", s) if vt(s) is not None else None
+    out = []
+    i = 0
+    n = len(s)
+    while i < n:
+        if s[i:i+1] not in b"[(":
+            return None
+        j = i + 1
+        while j < n and s[j:j+1] not in b"])":
+            if s[j:j+1] in b"[(":
+                return None
+            j += 1
+        if j >= n:
+            return None
+        body = s[i+1:j]
+        lo_incl, hi_incl = s[i:i+1] == b"[", s[j:j+1] == b"]"
+        parts = body.split(b",")
+        if len(parts) == 1:
+            v = vt(parts[0])
+            if v is None or not (lo_incl and hi_incl):
+                return None
+            out.append((v, True, v, True))
+        elif len(parts) == 2:
+            lo = vt(parts[0]) if parts[0] else ()
+            hi = vt(parts[1]) if parts[1] else ()
+            if lo is None or hi is None:
+                return None
+            lo = lo if parts[0] else None
+            hi = hi if parts[1] else None
+            if lo is None and hi is None:
+                return None
+            if lo is not None and hi is not None and (lo > hi or (lo == hi and not (lo_incl and hi_incl))):
+                return None
+            if lo is None and lo_incl or hi is None and hi_incl:
+                return None
+            if hi == () and not hi_incl or lo == () :
+                return None          # bounds equal to 0: known deviations of the span algebra, kept out
+            out.append((lo, lo_incl, hi, hi_incl))
+        else:
+            return None
+        i = j + 1
+        if i < n:
+            if s[i:i+1] != b",":
+                return None
+            i += 1
+            if i >= n:
+                return None
+    return ("ranges", out)
+def matches(req, ver):
+    """True/False, or None when requirement or version is outside the evaluator's domain"""
+    p = parse_req(req)
+    v = vt(ver)
+    if p is None or p[0] != "ranges" or v is None or v == ():
+        return None
+    for lo, li, hi, hi_i in p[1]:
+        ok = True
+        if lo is not None and (v < lo or (v == lo and not li)):
+            ok = False
+        if hi is not None and (v > hi or (v == hi and not hi_i)):
+            ok = False
+        if ok:
+            return True
+    return False
+
+
 # ----------------------------------------------------------------------------- direct oracle
 
 def tdict(t):
@@ -306,9 +432,60 @@ class Hit:
         self.clause, self.what, self.detail, self.known = clause, what, detail, known
 
 
+def range_oracle(universe, root, obs, table):
+    """Clauses about ranges that need no graph: (a) the library's answers recorded in the table against the
+    independent evaluator, pair by pair; (b) a resolution that fails although, by the independent evaluator, every
+    range declared in the universe has a matching version of its package (and nothing else excuses the failure)."""
+    hits = []
+    n = 0
+    for r, sflag in table[3]:
+        pr = parse_req(r)
+        if pr is None:
+            continue
+        if sflag == 2 or (sflag == 1) != (pr[0] == "soft"):
+            n += 1
+            if n <= 3:
+                hits.append(Hit("range_edges", "the semver layer classifies a requirement differently from Maven "
+                                "(soft version vs range, or does not parse it)",
+                                {"requirement": r, "library": sflag, "maven": pr[0]}))
+    for r, v, m in table[4]:
+        mine = matches(r, v)
+        if mine is None:
+            continue
+        if bool(m) != mine:
+            n += 1
+            if n <= 3:
+                hits.append(Hit("range_edges", "range membership as answered by the semver layer during the resolution differs "
+                                "from Maven's: the resolver places a version %s the range" % (b"outside" if mine else b"inside").decode(),
+                                {"requirement": r, "version": v, "library": int(m), "maven": int(mine)}))
+    if obs[0] == b"err" and obs[1] in (b"other", b"incompatible"):
+        uv = {nm: [v for v, _ in vl] for nm, vl in universe}
+        decl_all = [d for _, vl in universe for _, deps in vl for d in deps]
+        if obs[1] == b"other":
+            excused = any(nm.count(b":") != 1 for nm in uv)
+            for nm, req, ty in decl_all:
+                pr = parse_req(req)
+                if pr is None or nm.count(b":") != 1:
+                    excused = True
+                    break
+                if pr[0] == "ranges":
+                    ms = [matches(req, v) for v in uv.get(nm, [])]
+                    if any(x is None for x in ms) or not any(ms):
+                        excused = True
+                        break
+            if not excused:
+                hits.append(Hit("no_match_reported", "the resolution fails with an error although every requirement of the universe "
+                                "parses and every range has a matching version of its package", {"error": obs[1]}))
+        else:
+            if not any(nm == root[0] for nm, _, _ in decl_all):
+                hits.append(Hit("no_match_reported", "incompatible-requirements error although no declaration of the universe "
+                                "names the root's package (the only requirement the retry loop cannot absorb)", {"error": obs[1]}))
+    return hits
+
+
 def oracle(universe, root, obs, table, passes):
     """Evaluate every clause of C07 on the implementation's graph. Returns a list of Hit."""
-    hits = []
+    hits = range_oracle(universe, root, obs, table)
     if obs[0] != b"ok":
         return hits
     decls = {}
@@ -379,6 +556,10 @@ def oracle(universe, root, obs, table, passes):
                             {"from": e["from"], "to": e["to"], "req": e["req"]}))
         if s is None or s == 2:
             hits.append(Hit("range_edges", "edge whose requirement the harness has no semver answer for / does not parse",
+                            {"from": e["from"], "to": e["to"], "req": e["req"]}))
+        if matches(e["req"], e["to"][1]) is False:
+            hits.append(Hit("range_edges", "edge with a range requirement points to a version that is outside the range "
+                            "by Maven's rules (independent evaluation)",
                             {"from": e["from"], "to": e["to"], "req": e["req"]}))
 
     # ---- exclusion sets along the creating path
@@ -466,14 +647,40 @@ def oracle(universe, root, obs, table, passes):
                 bfs[e["to"]] = len(bfs)
                 queue.append(e["to"])
 
-    # ---- clause 2: nearest wins when every requirement met on the artifact is soft
+    # ---- clause 2: nearest wins when every requirement met on the artifact is soft (softness by Maven's syntax,
+    # not by the library's answer); and, when no retry happened, the FIRST declaration decides alone: a soft one
+    # names the version, a range selects the highest version of the package inside it
     err_names = set(r[0] for _, r in errors)
     for k, es in byart.items():
         if k == rootart or k[0] in err_names:
             continue
-        if any(simple.get(e["req"]) != 1 for e in es):
+        kinds = [parse_req(e["req"]) for e in es]
+        if any(x is None for x in kinds):
             continue
         if any(e["from"] not in bfs for e in es):
+            continue
+        if not all(x[0] == "soft" for x in kinds):
+            if passes == 1 and len(set(e["to"][1] for e in es)) == 1:
+                first = min(es, key=lambda e: (bfs[e["from"]], decl_index(e)))
+                sel = es[0]["to"][1]
+                pf = parse_req(first["req"])
+                if pf[0] == "soft":
+                    want = first["req"]
+                else:
+                    cands = [(vt(v), v) for v in uvers.get(k[0], []) if matches(first["req"], v)]
+                    unknown = any(matches(first["req"], v) is None for v in uvers.get(k[0], []))
+                    want = None
+                    if cands and not unknown:
+                        top = max(c[0] for c in cands)
+                        tops = [v for t, v in cands if t == top]
+                        if len(tops) == 1:
+                            want = tops[0]
+                if want is not None and sel != want:
+                    hits.append(Hit("nearest", "no retry happened, so the first declaration of the artifact decides alone "
+                                    "(a soft one names the version, a range takes the highest version inside it), "
+                                    "but another version is selected",
+                                    {"artifact": k, "first_declaration": (first["from"], first["req"]),
+                                     "selected": sel, "expected": want}))
             continue
         first = min(es, key=lambda e: (bfs[e["from"]], decl_index(e)))
         bad = [e for e in es if e["to"][1] != first["req"]]
@@ -491,6 +698,33 @@ def oracle(universe, root, obs, table, passes):
                     "F-C07-2?" if passes > 1 else None)
             h.expected_reqs = expected
             hits.append(h)
+
+    # ---- a node error is justified only if no version can satisfy the ranges: when one version of the package is,
+    # by the independent evaluator, inside EVERY range the universe declares for that package, findMatch cannot
+    # have run out of candidates
+    all_ranges = {}
+    for ds in decls.values():
+        for nm, req, ty in ds:
+            pr = parse_req(req)
+            all_ranges.setdefault(nm, []).append(req if (pr and pr[0] == "ranges") else (None if pr is None else b""))
+    for (n, (nm, req)) in errors:
+        rs = all_ranges.get(nm, [])
+        if any(r is None for r in rs):
+            continue
+        rs = sorted(set(r for r in rs if r))
+        ok_versions = []
+        unknown = False
+        for v in uvers.get(nm, []):
+            ms = [matches(r, v) for r in rs]
+            if any(m is None for m in ms):
+                unknown = True
+                break
+            if all(ms):
+                ok_versions.append(v)
+        if rs and not unknown and ok_versions:
+            hits.append(Hit("no_match_reported", "node error (no version satisfies the requirements) although a version of the "
+                            "package lies inside every range the universe declares for it",
+                            {"node": n, "requirement": (nm, req), "satisfying": ok_versions, "ranges": rs}))
 
     # ---- a kept declaration of a traversed node that no exclusion of the node's creating path covers never
     # vanishes: it has an edge or a node error (for ranges this is the no-match clause; in general it is the
